@@ -85,6 +85,8 @@ type PolicyManager struct {
 	namespaceLister    corev1Lister.NamespaceLister
 	policyLister       networkingv1Lister.NetworkPolicyLister
 	quitChan           <-chan struct{}
+	// keptPolicyChains is set when a stale policy chain could not be deleted yet because a pod chain jumps to it
+	keptPolicyChains bool
 }
 
 func New(client kubernetes.Interface, quitChan <-chan struct{}) *PolicyManager {
@@ -147,6 +149,19 @@ func (p *PolicyManager) Run() {
 	p.syncNetworkPolices()
 	p.syncNetworkPolicyRules()
 	p.syncPods()
+	p.deleteKeptPolicyChains()
+}
+
+// deleteKeptPolicyChains syncs the rules once more if syncIptables had to keep policy chains which pod chains still
+// referenced: syncPods has rewritten the pod chains in the meantime
+func (p *PolicyManager) deleteKeptPolicyChains() {
+	p.Lock()
+	kept := p.keptPolicyChains
+	p.keptPolicyChains = false
+	p.Unlock()
+	if kept {
+		p.syncNetworkPolicyRules()
+	}
 }
 
 func (p *PolicyManager) syncPods() {
@@ -585,7 +600,7 @@ func (p *PolicyManager) syncIptables(polices []policy) error {
 	activeChains := map[utiliptables.Chain]bool{}
 	p.writeRules(polices, existingChains, filterChains, activeChains, filterRules)
 
-	p.writeChains(existingChains, activeChains, filterChains, filterRules)
+	p.writeChains(existingChains, activeChains, filterChains, filterRules, iptablesSaveRaw.Bytes())
 	writeLine(filterRules, "COMMIT")
 
 	lines := append(filterChains.Bytes(), filterRules.Bytes()...)
@@ -597,9 +612,8 @@ func (p *PolicyManager) syncIptables(polices []policy) error {
 }
 
 func (p *PolicyManager) writeChains(existingChains map[utiliptables.Chain]string,
-	activeChains map[utiliptables.Chain]bool, filterChains *bytes.Buffer, filterRules *bytes.Buffer) {
+	activeChains map[utiliptables.Chain]bool, filterChains *bytes.Buffer, filterRules *bytes.Buffer, iptablesSave []byte) {
 	// Delete chains no longer in use.
-	// TODO fix if any pod reference this policy chain
 	for chain := range existingChains {
 		if !activeChains[chain] {
 			chainString := string(chain)
@@ -611,6 +625,14 @@ func (p *PolicyManager) writeChains(existingChains map[utiliptables.Chain]string
 			// the nice effect of flushing the chain.  Then we can remove the
 			// chain.
 			writeLine(filterChains, existingChains[chain])
+			if bytes.Contains(iptablesSave, []byte(" -j "+chainString+"\n")) {
+				// a pod chain still jumps to it, deleting it would make iptables-restore reject the whole batch. It is
+				// empty now and gets deleted once the pod chains are rewritten
+				p.Lock()
+				p.keptPolicyChains = true
+				p.Unlock()
+				continue
+			}
 			writeLine(filterRules, "-X", chainString)
 		}
 	}
